@@ -199,6 +199,58 @@ func mineLiterals(repo string, dirs []string) (ints []uint64, seqs [][]byte, str
 	return
 }
 
+// mineGroups collects, per function, the short string literals that occur in it: the
+// tokens a hand-written parser of structured text looks for (separators, labels, suffixes)
+// live together in one function, and inputs built from permutations of exactly those
+// tokens reach the branches behind them.
+func mineGroups(repo string, dirs []string) [][]string {
+	var out [][]string
+	seen := map[string]bool{}
+	for _, d := range dirs {
+		for _, f := range parseDir(filepath.Join(repo, d)) {
+			for _, decl := range f.Decls {
+				fd, ok := decl.(*ast.FuncDecl)
+				if !ok || fd.Body == nil {
+					continue
+				}
+				var toks []string
+				have := map[string]bool{}
+				ast.Inspect(fd.Body, func(n ast.Node) bool {
+					if c, ok := n.(*ast.CallExpr); ok {
+						// skip the arguments of logging / error formatting calls
+						if se, ok := c.Fun.(*ast.SelectorExpr); ok {
+							switch se.Sel.Name {
+							case "Errorf", "Errorln", "Warnf", "Warnln", "Warningln", "Infof", "Infoln", "Debugf", "Debugln", "Tracef", "Traceln", "Sprintf", "New", "Printf", "Println":
+								return false
+							}
+						}
+					}
+					if bl, ok := n.(*ast.BasicLit); ok && (bl.Kind == token.STRING || bl.Kind == token.CHAR) {
+						s, err := strconv.Unquote(bl.Value)
+						if bl.Kind == token.CHAR && err == nil && (len(s) != 1 || s[0] < 0x20 || s[0] > 0x7e || (s[0] >= '0' && s[0] <= '9') || (s[0] >= 'a' && s[0] <= 'f')) {
+							err = strconv.ErrSyntax // digit and hex-letter characters are arithmetic, not separators
+						}
+						if err == nil && len(s) >= 1 && len(s) <= 24 && !strings.Contains(s, "%") && !have[s] {
+							have[s] = true
+							toks = append(toks, s)
+						}
+					}
+					return true
+				})
+				if len(toks) >= 2 && len(toks) <= 8 {
+					key := strings.Join(toks, "\x00")
+					if !seen[key] && len(out) < 400 {
+						seen[key] = true
+						out = append(out, toks)
+					}
+				}
+			}
+		}
+	}
+	sort.Slice(out, func(i, j int) bool { return strings.Join(out[i], "\x00") < strings.Join(out[j], "\x00") })
+	return out
+}
+
 func main() {
 	if len(os.Args) < 2 {
 		fmt.Fprintln(os.Stderr, "usage: vgen <repo>")
@@ -248,6 +300,17 @@ func main() {
 				b.WriteString(", ")
 			}
 			fmt.Fprintf(&b, "%#02x", x)
+		}
+		b.WriteString("},\n")
+	}
+	b.WriteString("}\n\n// string literals grouped by the function they occur in (2..8 distinct ones per function)\nvar DictGroups = [][]string{\n")
+	for _, g := range mineGroups(repo, []string{".", "nasType", "nasMessage", "nasConvert", "security", "uePolicyContainer"}) {
+		b.WriteString("\t{")
+		for i, s := range g {
+			if i > 0 {
+				b.WriteString(", ")
+			}
+			fmt.Fprintf(&b, "%q", s)
 		}
 		b.WriteString("},\n")
 	}
